@@ -64,6 +64,7 @@ def run_shard(shard):
             pre_write(st, wd, shard[1])
             if shard[1] == 0:
                 symlink_family(st, wd)
+                new_target_family(st, wd)
         elif shard[0] == "save":
             save_faults(st, wd, shard[1], shard[2], pairs=False)
         else:
@@ -115,6 +116,47 @@ def symlink_family(st, wd):
                 elif after.get("real.yaml") == doc.encode():
                     st.fail("%s|symlink-target|nothing-written" % tool, case,
                             "the real file edited", "unchanged")
+    reset(wd, {})
+
+
+def new_target_family(st, wd):
+    """yaml-merge --overwrite names a file which does not exist yet (the
+    option replaces the file only "when it already exists"): the result is
+    written; with --backup there is no pre-image, hence no new .bak, and a
+    stale one is not taken for it."""
+    lhs, rhs = "a: 1\nc:\n  d: old\n", "c:\n  d: merged\n"
+    for backup in (False, True):
+        for stale in (False, True):
+            files = {"lhs.yaml": lhs, "rhs.yaml": rhs}
+            if stale:
+                files["new.yaml.bak"] = STALE
+            reset(wd, files)
+            argv = ["--nostdin", "--overwrite=" + os.path.join(wd, "new.yaml")]
+            if backup:
+                argv.append("--backup")
+            argv += [os.path.join(wd, "lhs.yaml"), os.path.join(wd, "rhs.yaml")]
+            res = cli.run("yaml-merge", argv, cwd=wd)
+            st.evaluations += 1
+            st.transitions += 1
+            st.validated += 1
+            st.states += 1
+            case = {"tool": "yaml-merge", "doc": lhs, "stale_bak": stale,
+                    "new_target": True, "backup": backup, "cause": None,
+                    "fault": None}
+            st.sig("new-target", backup, stale)
+            after = snapshot(wd)
+            if res.code != 0 or res.exc is not None:
+                st.fail("yaml-merge|new-overwrite-target|run-failed", case,
+                        "exit 0", repr(res)[:200])
+            elif b"merged" not in (after.get("new.yaml") or b""):
+                st.fail("yaml-merge|new-overwrite-target|nothing-written",
+                        case, "the merge in new.yaml",
+                        repr(after.get("new.yaml"))[:120])
+            elif (after.get("new.yaml.bak") != STALE) if stale else \
+                    ("new.yaml.bak" in after):
+                st.fail("yaml-merge|new-overwrite-target|backup-of-nothing",
+                        case, "no backup of a file which did not exist",
+                        repr(after.get("new.yaml.bak"))[:120])
     reset(wd, {})
 
 
